@@ -39,9 +39,24 @@ Inductive step :=
 | RecvEOF            (* server RecvMsg after the client half-closed *)
 | CHeader            (* client Header() once headers are available *)
 | Ret (r : ret)      (* handler returns; the client learns the outcome *)
-| Cancel.            (* client cancels its context while waiting in RecvMsg *)
+| CtxEnd (dl : bool)
+| Cancel (dl : bool). (* the client's context ends while the client waits in RecvMsg: it is cancelled
+                        ([dl] = false) or its deadline expires ([dl] = true) *)
 
-Record scenario := mkScn { shp : shape; req : Z; precancel : bool; steps : list step }.
+(* [CtxEnd dl] (constructor below, after [Cancel]) is the non-terminal form of [Cancel dl]: the
+   client's context ends in the same way, but the handler then goes on with the actions that follow
+   in the list (SetH / SendH / SetT, S2C = a SendMsg that fails, RecvEOF = a RecvMsg that fails) up
+   to its return [Ret].  What those calls return to the handler is not part of the transcript: on
+   a real connection it depends on whether the stream reset has been processed yet. *)
+
+(* the calling context: still live, cancelled, or past its deadline; ctx.Err() tells the last two apart *)
+Inductive ctxend := CtxLive | CtxCanceled | CtxExpired.
+Definition ctx_of (dl : bool) : ctxend := if dl then CtxExpired else CtxCanceled.
+
+(* [omd]: the user metadata the client attached to its context (metadata.NewOutgoingContext);
+   [pre]: the state of the calling context when the call is made *)
+Record scenario := mkScn { shp : shape; req : Z; omd : md; pre : ctxend; steps : list step }.
+Definition precancel (sc : scenario) : bool := match pre sc with CtxLive => false | _ => true end.
 
 Definition ss (s : shape) : bool := match s with ServerStream | Bidi => true | _ => false end.
 Definition cs (s : shape) : bool := match s with ClientStream | Bidi => true | _ => false end.
@@ -56,7 +71,8 @@ Inductive cobs :=                        (* client side, in client program order
 | CSent (ok : bool) | CClosed | CGot (m : Z) | CEnd (o : outcome) | CHdr (h : md) | CTrl (t : md).
 
 Inductive sobs :=                        (* server side, in handler program order *)
-| SEntered (m : Z) | SGot (m : Z) | SEof | SRecvErr | SSent (ok : bool)
+| SEntered (m : Z) | SIncoming (h : md)   (* request metadata as metadata.FromIncomingContext shows it *)
+| SGot (m : Z) | SEof | SRecvErr | SSent (ok : bool)
 | SSetH (ok : bool) | SSendH (ok : bool) | SDone (ok : bool).
 
 Definition transcript := (list cobs * list sobs)%type.
@@ -102,18 +118,24 @@ Record wst := mkW {
   w_trailer : md;           (* s.trailer *)
   w_closed : bool;          (* Close was called (closedC / serverSend closed, ctx cancelled by Close) *)
   w_closeErr : option goerr;
-  w_cancelled : bool;       (* the calling context was cancelled *)
+  w_ctx : ctxend;           (* the calling context: live, cancelled, deadline exceeded *)
   w_half : bool             (* clientSend closed *)
 }.
-Definition w_init := mkW [] false [] false None false false.
+Definition w_init := mkW [] false [] false None CtxLive false.
+Definition w_cancelled (s : wst) : bool := match w_ctx s with CtxLive => false | _ => true end.
+
+(* ctx.Err() of the stream's context (a child of the calling context, cancelled by Close) once it is done *)
+Definition ctx_err (c : ctxend) : goerr := match c with CtxExpired => ECtxDeadline | _ => ECtxCanceled end.
 
 Definition w_done (s : wst) : bool := w_closed s || w_cancelled s.       (* <-ctx.Done() ready *)
+(* the client's context has ended, the handler is still running *)
+Definition w_gone (s : wst) : bool := w_cancelled s && negb (w_closed s).
 
-Definition set_header h s := mkW h (w_sent s) (w_trailer s) (w_closed s) (w_closeErr s) (w_cancelled s) (w_half s).
-Definition set_sent s := mkW (w_header s) true (w_trailer s) (w_closed s) (w_closeErr s) (w_cancelled s) (w_half s).
-Definition set_trailer t s := mkW (w_header s) (w_sent s) t (w_closed s) (w_closeErr s) (w_cancelled s) (w_half s).
-Definition set_cancelled s := mkW (w_header s) (w_sent s) (w_trailer s) (w_closed s) (w_closeErr s) true (w_half s).
-Definition set_half s := mkW (w_header s) (w_sent s) (w_trailer s) (w_closed s) (w_closeErr s) (w_cancelled s) true.
+Definition set_header h s := mkW h (w_sent s) (w_trailer s) (w_closed s) (w_closeErr s) (w_ctx s) (w_half s).
+Definition set_sent s := mkW (w_header s) true (w_trailer s) (w_closed s) (w_closeErr s) (w_ctx s) (w_half s).
+Definition set_trailer t s := mkW (w_header s) (w_sent s) t (w_closed s) (w_closeErr s) (w_ctx s) (w_half s).
+Definition set_ctx (c : ctxend) s := mkW (w_header s) (w_sent s) (w_trailer s) (w_closed s) (w_closeErr s) c (w_half s).
+Definition set_half s := mkW (w_header s) (w_sent s) (w_trailer s) (w_closed s) (w_closeErr s) (w_ctx s) true.
 
 (* serverStream.SetHeader *)
 Definition w_SetHeader (fx : fixes) (h : md) (s : wst) : wst * bool :=
@@ -136,7 +158,7 @@ Definition w_closeErrLocked (s : wst) : goerr := match w_closeErr s with None =>
 
 (* doneErr (was closeErrLocked everywhere before the repair) *)
 Definition w_doneErr (fx : fixes) (s : wst) : goerr :=
-  if fx_ctx_err fx then (if w_closed s then w_closeErrLocked s else ECtxCanceled) else w_closeErrLocked s.
+  if fx_ctx_err fx then (if w_closed s then w_closeErrLocked s else ctx_err (w_ctx s)) else w_closeErrLocked s.
 
 (* serverStream.SendMsg when the context is already done (no receiver): what it leaves behind *)
 Definition w_server_send_done (fx : fixes) (s : wst) : wst :=
@@ -145,7 +167,7 @@ Definition w_server_send_done (fx : fixes) (s : wst) : wst :=
 (* ClientServerStream.Close *)
 Definition w_Close (fx : fixes) (e : option goerr) (s : wst) : wst :=
   let s1 := if fx_hdr_on_close fx && negb (w_cancelled s) then w_sendHeaderIfNeeded s else s in
-  mkW (w_header s1) (w_sent s1) (w_trailer s1) true e (w_cancelled s1) (w_half s1).
+  mkW (w_header s1) (w_sent s1) (w_trailer s1) true e (w_ctx s1) (w_half s1).
 
 (* clientStream.Header: blocks until the latch closes or the context is done *)
 Definition w_Header (s : wst) : option md :=
@@ -157,7 +179,7 @@ Definition w_Trailer (s : wst) : md := w_trailer s.
 (* clientStream.RecvMsg with no sender waiting on serverSend *)
 Definition w_client_recv_idle (s : wst) : option goerr :=
   if w_closed s then Some (w_closeErrLocked s)            (* serverSend closed *)
-  else if w_cancelled s then Some ECtxCanceled            (* ctx.Err() *)
+  else if w_cancelled s then Some (ctx_err (w_ctx s))     (* ctx.Err() *)
   else None (* would block *).
 
 (* serverStream.RecvMsg with no sender waiting on clientSend, context done *)
@@ -187,19 +209,40 @@ Definition w_step (fx : fixes) (sh : shape) (r : wrun) (st : step) : wrun * (lis
       else (r, ([CSent true], [SGot m]))
   | S2C m =>
       let s1 := w_sendHeaderIfNeeded s in
-      if w_done s then (r, stuck)
+      if w_gone s then (mkWR (w_server_send_done fx s) (wr_resp r) false, ([], []))   (* SendMsg fails *)
+      else if w_done s then (r, stuck)
       else (mkWR s1 (negb (ss sh)) false, ([CGot m], [SSent true]))
-  | SetH h => let '(s1, ok) := w_SetHeader fx h s in (mkWR s1 (wr_resp r) false, ([], [SSetH ok]))
-  | SendH h => let '(s1, ok) := w_SendHeader h s in (mkWR s1 (wr_resp r) false, ([], [SSendH ok]))
+  | SetH h => let '(s1, ok) := w_SetHeader fx h s in
+              (mkWR s1 (wr_resp r) false, ([], if w_gone s then [] else [SSetH ok]))
+  | SendH h => let '(s1, ok) := w_SendHeader h s in
+               (mkWR s1 (wr_resp r) false, ([], if w_gone s then [] else [SSendH ok]))
   | SetT t => (mkWR (w_SetTrailer t s) (wr_resp r) false, ([], []))
   | CloseSend => (mkWR (set_half s) (wr_resp r) false, ([CClosed], []))
-  | RecvEOF => if w_half s && negb (w_done s) then (r, ([], [SEof])) else (r, stuck)
+  | RecvEOF =>
+      if w_gone s then (if w_half s then (r, stuck) (* both select cases ready *) else (r, ([], [])))
+      else if w_half s && negb (w_done s) then (r, ([], [SEof])) else (r, stuck)
   | CHeader =>
       match w_Header s with
       | Some h => (r, ([CHdr (canon_md h)], []))
       | None => (r, stuck)
       end
+  | CtxEnd dl =>
+      if w_done s then (r, stuck) else
+      let s1 := set_ctx (ctx_of dl) s in
+      let c := [CEnd (canon (negb (is_invoke sh)) (ss sh) (w_client_recv_idle s1))] in
+      (* Invoke returns at once, with the metadata as it is now; the handler sees its context end *)
+      (mkWR s1 false false, (c ++ (if is_invoke sh then collect_w s1 else []), [SDone true]))
   | Ret rt =>
+      if w_gone s then
+        (* the handler returns after the client has gone: a unary handler's response meets SendMsg on
+           the finished call; Close does not latch anything; a stream client then reads Header()/Trailer() *)
+        let s0 := if srv_has_stream sh then s
+                  else match rt with RetOk _ => w_server_send_done fx s | _ => s end in
+        let e := if srv_has_stream sh then ret_err rt
+                 else match rt with RetOk _ => Some (w_doneErr fx s0) | _ => ret_err rt end in
+        let s1 := w_Close fx e s0 in
+        (mkWR s1 false true, ((if is_invoke sh then [] else epilogue_w s1), []))
+      else
       if srv_has_stream sh then
         (* NewStream's goroutine: err := Handler(...); Close(err) *)
         let s1 := w_Close fx (ret_err rt) s in
@@ -218,8 +261,8 @@ Definition w_step (fx : fixes) (sh : shape) (r : wrun) (st : step) : wrun * (lis
             let s1 := w_Close fx (ret_err rt) s in
             (mkWR s1 false true, ([CEnd (canon (negb (is_invoke sh)) false (w_client_recv_idle s1))] ++ epilogue_w s1, []))
         end
-  | Cancel =>
-      let s1 := set_cancelled s in
+  | Cancel dl =>
+      let s1 := set_ctx (ctx_of dl) s in
       let c := [CEnd (canon (negb (is_invoke sh)) (ss sh) (w_client_recv_idle s1))] in
       (* the handler: its context is done; a RecvMsg fails; it returns, Close(nil) *)
       let sv := [SDone true] ++ (if srv_has_stream sh && negb (w_half s) then [w_server_recv_done fx s1] else []) in
@@ -245,11 +288,14 @@ Definition w_start (sh : shape) : wst * list cobs :=
   if cs sh then (w_init, [])
   else (set_half w_init, if is_invoke sh then [] else [CSent true; CClosed]).
 
-Definition w_entered (sh : shape) (rq : Z) : list sobs := [SEntered (if cs sh then -1 else rq)].
+(* startStream: the outgoing metadata of the calling context, cloned, is the handler's incoming metadata *)
+Definition w_incoming (o : md) : md := o.
+Definition w_entered (sh : shape) (rq : Z) (o : md) : list sobs :=
+  [SEntered (if cs sh then -1 else rq); SIncoming (canon_md (w_incoming o))].
 
 (* an already cancelled context: the client only learns the outcome *)
-Definition w_precancelled (fx : fixes) (sh : shape) : list cobs :=
-  let s := set_cancelled w_init in
+Definition w_precancelled (fx : fixes) (sh : shape) (c : ctxend) : list cobs :=
+  let s := set_ctx c w_init in
   if is_invoke sh
   then [CEnd (canon false false (Some (w_doneErr fx s))); CHdr []; CTrl []]   (* SendMsg fails, Invoke returns that *)
   else [CEnd (canon true (ss sh) (w_client_recv_idle s)); CHdr []; CTrl []].
@@ -258,11 +304,11 @@ Definition w_precancelled (fx : fixes) (sh : shape) : list cobs :=
 Definition wrap_exec (fx : fixes) (sc : scenario) : wst * transcript :=
   if precancel sc
   then (* the handler, if it is entered at all, returns its context's error at once *)
-       (w_Close fx (Some ECtxCanceled) (set_cancelled w_init), (w_precancelled fx (shp sc), []))
+       (w_Close fx (Some (ctx_err (pre sc))) (set_ctx (pre sc) w_init), (w_precancelled fx (shp sc) (pre sc), []))
   else
     let '(s0, c0) := w_start (shp sc) in
     let '(r, (c, sv)) := w_steps fx (shp sc) (mkWR s0 false false) (steps sc) in
-    (wr_s r, (c0 ++ c, w_entered (shp sc) (req sc) ++ sv)).
+    (wr_s r, (c0 ++ c, w_entered (shp sc) (req sc) (omd sc) ++ sv)).
 
 Definition wrap_run (fx : fixes) (sc : scenario) : transcript := snd (wrap_exec fx sc).
 
@@ -294,3 +340,26 @@ Definition newstream_lookup (m : Z) (d_ss d_cs : bool) : option Z :=
       let '(mss, mcs) := match k with MUnary => (false, false) | MStream a b => (a, b) end in
       if Bool.eqb mss d_ss && Bool.eqb mcs d_cs then None else Some 13
   end.
+
+(* ---------- client misuse (outside every scenario: no theorem about calls covers it) ---------- *)
+
+Inductive misuse := SendAfterCloseSend | CloseSendTwice.
+Inductive mres := MNil | MErr (code : Z) | MPanic.
+
+(* clientStream.CloseSend closes clientSend; a later SendMsg selects on a send to the closed channel
+   (the context being live, that case is chosen: panic "send on closed channel"), a second CloseSend
+   closes it again (panic "close of closed channel") *)
+Definition w_misuse (k : misuse) : mres := match k with SendAfterCloseSend => MPanic | CloseSendTwice => MPanic end.
+
+(* ---------- unwrap.go ---------- *)
+
+(* an object either implements Unwrapper (and Unwrap gives the next object) or does not *)
+Inductive obj := Plain (id : Z) | Wrapping (id : Z) (inner : obj).
+
+(* UnwrapFully: for t, ok := obj.(Unwrapper); ok; ... { obj = t.Unwrap() } *)
+Fixpoint unwrap_fully (o : obj) : obj :=
+  match o with Plain _ => o | Wrapping _ i => unwrap_fully i end.
+
+Definition obj_id (o : obj) : Z := match o with Plain i => i | Wrapping i _ => i end.
+Fixpoint mk_chain (ids : list Z) (leaf : Z) : obj :=
+  match ids with [] => Plain leaf | i :: r => Wrapping i (mk_chain r leaf) end.
